@@ -17,7 +17,9 @@ TABLE = {
     "R2/gap7": ["C05"], "R2/gap8": ["C05"], "R2/gap9": ["C05"], "R2/gap10": ["C05"], "R2/gap11": ["C05"], "R2/gap12": ["C13"], "R2/gap13": ["C04"],
     "R3/gap1": ["C07"], "R3/gap2": ["C07"], "R3/gap3": ["C07"], "R3/gap4": ["C07"], "R3/gap5": ["C07"], "R3/gap6": ["C07"], "R3/gap7": ["C20"],
     "R3/gap8": ["C08"], "R3/gap9": ["C10"], "R3/gap10": ["C07"],
-    "R4/gap1": ["C11"], "R4/gap2": ["C12"], "R4/gap3": ["C12"], "R4/gap4": ["C12"], "R4/gap5": ["C12"], "R4/gap6": ["C12"],
+    "R4/gap1": ["C11"],
+    "S2/gap1": ["C14"], "S2/gap2": ["C10"], "S2/gap3": ["C05"], "S3/gap1": ["C06"], "S3/gap2": ["C18"], "S3/gap3": ["C11"],
+    "S4/gap1": ["C03"], "S4/gap2": ["C19"], "S4/gap3": ["C07"], "S4/gap4": ["C19"], "S4/gap5": ["C19"], "S5/gap1": ["C17"], "S5/gap2": ["C13"], "R4/gap2": ["C12"], "R4/gap3": ["C12"], "R4/gap4": ["C12"], "R4/gap5": ["C12"], "R4/gap6": ["C12"],
     "R4/gap7": ["C19"], "R4/gap8": ["C19"], "R4/gap9": ["C18"], "R4/gap10": ["C11"],
     "R5/gap1": ["C14"], "R5/gap2": ["C17"], "R5/gap3": ["C15"], "R5/gap3b": ["C15"], "R5/gap4": ["C16"], "R5/gap4b": ["C16"],
     "R5/gap5": ["C15"], "R5/gap6": ["C15"], "R5/gap7": ["C14"], "R5/gap8": ["C14"], "R5/gap8b": ["C14"], "R5/gap9": ["C17"],
